@@ -56,11 +56,11 @@ class Env:
             ref = tc.ref_trace(nat[1]) if nat[0] == "ok" and tc.ops_in_domain(nat[1]) else None
             if ref is None:
                 raise NativeError("the device kernel yields no path")
-            p = tc.concrete_path(ref)
         else:
-            p = TraceInterpreter(self.S).run_trace(dev.kernel, tuple(ordered), {})
-        if dev.rev:
-            p = reverse_path(p)
+            from props import tracer_common as tc
+            ref = tc.abstract_path(TraceInterpreter(self.S).run_trace(dev.kernel, tuple(ordered), {}))
+        # the way back is the reference model's time reversal, not the package's inv() methods
+        p = tc.concrete_path(tc.rev_abs(ref) if dev.rev else ref)
         pv = Path(ilist.IList(dev.xt), ilist.IList(dev.yt), p)
         label = f"{'rev' if dev.rev else 'fwd'}:{dev.kernel.sym_name}(" + ",".join(_num(v) for v in ordered) + ")"
         if self.stack:
